@@ -799,3 +799,23 @@ def reachable_under(cfg, defs: Defs, target: int, env: dict[str, bool], max_atom
                 seen.add(y)
                 todo.append(y)
     return False
+
+
+def param_mutated_in_closure(ctx, fn: FuncInfo, param: str, depth: int = 4, _seen: frozenset = frozenset()) -> list[tuple[FuncInfo, ast.AST]]:
+    """Places where the object bound to `param` of `fn` is mutated in place (subscript store / del / mutating method),
+    in `fn` or in a function it hands the object to under some parameter (followed through the call graph)."""
+    from .rules.c10 import _param_mutations
+
+    out: list[tuple[FuncInfo, ast.AST]] = []
+    if (fn.qualname, param) in _seen or depth < 0:
+        return out
+    _seen = _seen | {(fn.qualname, param)}
+    m = _param_mutations(fn)
+    if param in m:
+        out.append((fn, m[param]))
+    for s in ctx.cg.sites.get(fn.qualname, []):
+        for c in s.callees:
+            for p, a in bind_args(s.node, c).items():
+                if isinstance(a, ast.Name) and a.id == param:
+                    out += param_mutated_in_closure(ctx, c, p, depth - 1, _seen)
+    return out
